@@ -30,14 +30,12 @@
      implementation the judge calls twice and compares bit for bit (observation).
    * FOUND AND REPAIRED through this check (see props/C13.v): compute_bias used to raise for an
      all-null / all-NaN numeric feature (9ce4ae5: now one null group), for a pl.Enum feature
-     with more categories than bins (f02e33e: now pooled, the pooled label sorts last), and
-     pooled under a name that was a real category (3ff5ebb).  All three are ordinary valid
-     inputs of the correspondence and of the judge now.
-   * KNOWN FINDING, still open (harness tag "inf_only"): a numeric feature whose non-null values
-     are all +inf / -inf makes bin_feature raise TypeError or return NaN edges; compute_bias
-     propagates this and the model reproduces it (CmpBias.grouping_of: GRErr / GRNan).
-     Boolean features are not a documented feature type: modelled, not judged.  The theorems
-     are about runs that return.
+     with more categories than bins (f02e33e: now pooled, the pooled label sorts last), for a
+     numeric feature whose only non-null values are +inf / -inf (b2b5cba: now one bin; before,
+     TypeError or NaN edges), and pooled under a name that was a real category (3ff5ebb).
+     All four are ordinary valid inputs of the correspondence and of the judge now; with
+     C13_numeric_accepted / C13_string_accepted the grouping never fails for a documented
+     feature type.  Boolean features are not a documented feature type: modelled, not judged.
    * C09_perm is stated on rows (y, z, key, w), i.e. AFTER binning.  That the binning itself
      is independent of the row order (quantile edges, frequency table) is not proved here;
      the judge shuffles the raw inputs of the implementation.
